@@ -186,7 +186,7 @@ class PPO[PolicyType: AbstractActorCriticPolicy](
             )
             value_loss = (
                 jnp.mean(
-                    jnp.minimum(
+                    jnp.maximum(
                         jnp.square(values - rollout_buffer.returns),
                         jnp.square(clipped_values - rollout_buffer.returns),
                     )
